@@ -5,7 +5,8 @@ package worker
 import (
 	"bufio"
 	"encoding/binary"
-	"encoding/json"
+	"bytes"
+	"encoding/gob"
 	"fmt"
 	"io"
 	"os"
@@ -49,15 +50,17 @@ func Main() {
 			return
 		}
 		var req sb.Req
-		if err := json.Unmarshal(buf, &req); err != nil {
+		if err := gob.NewDecoder(bytes.NewReader(buf)).Decode(&req); err != nil {
 			fmt.Fprintln(os.Stderr, "worker: bad request:", err)
 			os.Exit(3)
 		}
 		resp := serve(&req)
-		payload, err := json.Marshal(resp)
-		if err != nil {
-			payload, _ = json.Marshal(&sb.Resp{Status: "infra", Err: "marshal response: " + err.Error()})
+		var pbuf bytes.Buffer
+		if err := gob.NewEncoder(&pbuf).Encode(resp); err != nil {
+			pbuf.Reset()
+			gob.NewEncoder(&pbuf).Encode(&sb.Resp{Status: "infra", Err: "marshal response: " + err.Error()})
 		}
+		payload := pbuf.Bytes()
 		binary.LittleEndian.PutUint32(hdr[:], uint32(len(payload)))
 		out.Write(hdr[:])
 		out.Write(payload)
